@@ -214,9 +214,16 @@ pub fn observe_chunked(case: &Case, shp: &[u8], shx: &[u8], chunk: usize) -> Res
 /// The by-path routes (`read_shapes`, `read_shapes_as`, `ShapeReader::from_path`): the .shx next to the
 /// .shp is an index that was supplied.  Returns (route, items or error).
 pub fn observe_disk(case: &Case, shp: &[u8], shx: &[u8]) -> Vec<(String, Result<Vec<Result<MRead, String>>, String>)> {
+    let mut v = observe_disk_named(case, shp, shx, false);
+    // the .shp named in capitals, its index as the library's own writer names it (extension replaced by "shx")
+    v.extend(observe_disk_named(case, shp, shx, true).into_iter().map(|(n, r)| (format!("{} [.SHP]", n), r)));
+    v
+}
+
+fn observe_disk_named(case: &Case, shp: &[u8], shx: &[u8], capitals: bool) -> Vec<(String, Result<Vec<Result<MRead, String>>, String>)> {
     let dir = super::c01_c02::scratch_dir();
     let tid: String = format!("{:?}", std::thread::current().id()).chars().filter(|c| c.is_ascii_digit()).collect();
-    let path = dir.join(format!("c14-{}.shp", tid));
+    let path = dir.join(if capitals { format!("C14-{}.SHP", tid) } else { format!("c14-{}.shp", tid) });
     std::fs::write(&path, shp).expect("scratch write");
     std::fs::write(path.with_extension("shx"), shx).expect("scratch write");
     let mut out = vec![];
